@@ -183,12 +183,31 @@ pub fn gen_and_run<G: AffineRepr>(curve: &str, ci: u64, seed: u64, tier: &str) -
     g2.increase_capacity(7);
     g2.increase_capacity(vcap);
     let same_hist = (g2.G(vcap, vp).zip(g.G(vcap, vp)).all(|(a, b)| a == b) && g2.H(vcap, vp).zip(g.H(vcap, vp)).all(|(a, b)| a == b)) as u8;
+    // high party indices: the label carries the party index as LE32; objects with many parties must give
+    // party j the stream of label j for j beyond a byte / 16 bits as well
+    let hp_n = 65538usize;
+    let hp = BulletproofGens::<G>::new(1, hp_n);
+    let hg: Vec<G> = hp.G(1, hp_n).copied().collect();
+    let hh: Vec<G> = hp.H(1, hp_n).copied().collect();
+    let mut high_bad = String::from("-");
+    for j in [1usize, 255, 256, 257, 511, 65535, 65536, 65537] {
+        let sg = spec_chain::<G>(true, j as u32, 1)[0];
+        let sh = spec_chain::<G>(false, j as u32, 1)[0];
+        if hg.get(j) != Some(&sg) && high_bad == "-" { high_bad = format!("G[{}][0]", j); }
+        if hh.get(j) != Some(&sh) && high_bad == "-" { high_bad = format!("H[{}][0]", j); }
+    }
+    {
+        let mut seen2: HashMap<Vec<u8>, usize> = HashMap::new();
+        for (j, p) in hg.iter().enumerate().chain(hh.iter().enumerate().map(|(j, p)| (j + hp_n, p))) {
+            if let Some(prev) = seen2.insert(ser(p), j) { if high_bad == "-" { high_bad = format!("collision:{}={}", prev, j); } }
+        }
+    }
     let id = format!("gval{}", ci);
     outs.push(Out {
         id: id.clone(),
         coq: String::from("Eval vm_compute in [[0%Z]].\n"),
-        obs: format!("{} 0\n{} 91 {} {} {} {} {} {} {}\n", id, id, all.len(), collision, bad_member, spec_ok, ped_ok, same_hist, vcap),
-        summary: format!("{} {} tag=gens-values points={} collision={} bad_member={} spec_chain_ok={} pedersen_spec_ok={} same_after_history={} prover=0 basis=1,0\n", id, curve, all.len(), collision, bad_member, spec_ok, ped_ok, same_hist),
+        obs: format!("{} 0\n{} 91 {} {} {} {} {} {} {} {}\n", id, id, all.len(), collision, bad_member, spec_ok, ped_ok, same_hist, vcap, high_bad),
+        summary: format!("{} {} tag=gens-values points={} collision={} bad_member={} spec_chain_ok={} pedersen_spec_ok={} same_after_history={} high_party={} prover=0 basis=1,0\n", id, curve, all.len(), collision, bad_member, spec_ok, ped_ok, same_hist, high_bad),
     });
     outs
 }
